@@ -429,7 +429,7 @@ func init() {
 		defer putModel(m)
 		n := tierN(1500, 100000)
 		rng := newRand(20)
-		for i := 0; i < n; i++ {
+		for i := 0; i < n && !expired(); i++ {
 			g := &c20Gen{r: rng, pos: "plan"}
 			calls := []bCall{{C: "reset", Name: "plan", Descr: "d"}}
 			if rng.IntN(20) == 0 {
